@@ -55,6 +55,33 @@ func RegisterScenario(s *Scenario) { scenarios[s.Name] = s }
 func RegisterEnum(e *Enum)          { enums[e.Name] = e }
 func RegisterCheck(id string, f func(c *Ctx)) { checks[id] = f }
 
+// curPOR is the sleep-set specification of the execution about to run (nil: plain DFS). A process
+// runs one execution at a time, so a package variable is enough.
+var curPOR *explore.PORItem
+
+// cfgFor builds the scheduler configuration of a scenario execution.
+func cfgFor(prefix []int) vsched.Config {
+	c := vsched.Config{Prefix: prefix}
+	if curPOR != nil {
+		c.POR = true
+		c.SleepAt = curPOR.SleepAt
+		c.Sleep = curPOR.Sleep
+		if c.Sleep == nil {
+			c.SleepAt = -1
+		}
+	}
+	return c
+}
+
+// porRun adapts a scenario to the POR explorer.
+func porRun(sc *Scenario) explore.RunPORFunc {
+	return func(it explore.PORItem) explore.Outcome {
+		curPOR = &it
+		defer func() { curPOR = nil }()
+		return sc.Run(it.Prefix, nil)
+	}
+}
+
 // Part is the per-scenario / per-enumeration breakdown written into the evidence file.
 type Part struct {
 	Name        string   `json:"name"`
@@ -72,6 +99,7 @@ type Part struct {
 	Transitions int      `json:"transitions,omitempty"`
 	Samples     []string `json:"samples,omitempty"`
 	WallS       float64  `json:"wall_s"`
+	Pruned      int      `json:"sleep_set_pruned,omitempty"`
 }
 
 // Known finding entry (known_findings.json).
@@ -166,13 +194,33 @@ func (c *Ctx) DFS(name string, b explore.Bounds) *Part {
 		b.Deadline = c.Deadline
 	}
 	st := explore.NewStats()
-	roots := explore.Frontier(sc.Run, b, c.Workers*64, st)
-	if st.Broken == "" && len(roots) > 0 && time.Now().Before(b.Deadline) {
-		c.farm(name, roots, b, st)
+	if b.POR && os.Getenv("VERIF_INPROC") != "" {
+		run := porRun(sc)
+		dbg := func(it explore.PORItem) explore.Outcome {
+			o := run(it)
+			fmt.Printf("EXEC prefix=%v sleepAt=%d sleep=%v pruned=%v obs=%s\n", it.Prefix, it.SleepAt, sleepIDs(it.Sleep), o.Pruned, o.ObsKey)
+			for i, cp := range o.Trace {
+				fmt.Printf("   [%d] %s n=%d chosen=%d pre=%v threads=%v sleep=%v wild=%v\n", i, cp.Kind, cp.N, cp.Chosen, cp.Preempt, cp.Threads, sleepIDs(cp.Sleep), cp.Wild)
+			}
+			return o
+		}
+		explore.SubtreePOR(dbg, explore.PORItem{SleepAt: -1}, b, st)
+	} else if b.POR {
+		p.Bounds += " sleep-sets"
+		roots := explore.FrontierPOR(porRun(sc), b, c.Workers*16, st)
+		if st.Broken == "" && len(roots) > 0 && time.Now().Before(b.Deadline) {
+			c.farmPOR(name, roots, b, st)
+		}
+	} else {
+		roots := explore.Frontier(sc.Run, b, c.Workers*64, st)
+		if st.Broken == "" && len(roots) > 0 && time.Now().Before(b.Deadline) {
+			c.farm(name, roots, b, st)
+		}
 	}
 	if time.Now().After(b.Deadline) {
 		st.Capped = true
 	}
+	p.Pruned = st.Pruned
 	c.finishPart(p, st, name, t0)
 	return p
 }
@@ -213,14 +261,32 @@ func (c *Ctx) finishPart(p *Part, st *explore.Stats, name string, t0 time.Time) 
 }
 
 type workReq struct {
-	Scenario string         `json:"scenario"`
-	Prefix   []int          `json:"prefix"`
-	Bounds   explore.Bounds `json:"bounds"`
+	Scenario string           `json:"scenario"`
+	Prefix   []int            `json:"prefix"`
+	Bounds   explore.Bounds   `json:"bounds"`
+	POR      *explore.PORItem `json:"por,omitempty"`
+}
+
+// farmPOR distributes sleep-set subtree roots over worker processes.
+func (c *Ctx) farmPOR(name string, roots []explore.PORItem, b explore.Bounds, st *explore.Stats) {
+	reqs := make([]workReq, len(roots))
+	for i := range roots {
+		reqs[i] = workReq{Scenario: name, Prefix: roots[i].Prefix, Bounds: b, POR: &roots[i]}
+	}
+	c.farmReqs(reqs, b, st)
 }
 
 // farm distributes subtree roots over worker processes.
 func (c *Ctx) farm(name string, roots [][]int, b explore.Bounds, st *explore.Stats) {
-	jobs := make(chan []int, len(roots))
+	reqs := make([]workReq, len(roots))
+	for i := range roots {
+		reqs[i] = workReq{Scenario: name, Prefix: roots[i], Bounds: b}
+	}
+	c.farmReqs(reqs, b, st)
+}
+
+func (c *Ctx) farmReqs(roots []workReq, b explore.Bounds, st *explore.Stats) {
+	jobs := make(chan workReq, len(roots))
 	for _, r := range roots {
 		jobs <- r
 	}
@@ -255,12 +321,12 @@ func (c *Ctx) farm(name string, roots [][]int, b explore.Bounds, st *explore.Sta
 					mu.Unlock()
 					continue
 				}
-				enc.Encode(workReq{Scenario: name, Prefix: pre, Bounds: b})
+				enc.Encode(pre)
 				line, err := rd.ReadBytes('\n')
 				if err != nil {
 					mu.Lock()
 					if st.Broken == "" {
-						st.Broken = fmt.Sprintf("worker died on prefix %v: %v", pre, err)
+						st.Broken = fmt.Sprintf("worker died on prefix %v: %v", pre.Prefix, err)
 					}
 					mu.Unlock()
 					break
@@ -316,6 +382,8 @@ func WorkerLoop() {
 		st := explore.NewStats()
 		if sc == nil {
 			st.Broken = "unknown scenario " + rq.Scenario
+		} else if rq.POR != nil {
+			explore.SubtreePOR(porRun(sc), *rq.POR, rq.Bounds, st)
 		} else {
 			explore.Subtree(sc.Run, rq.Prefix, rq.Bounds, st)
 		}
@@ -712,12 +780,22 @@ func V(key, format string, a ...interface{}) explore.Violation {
 }
 
 // DebugScenario explores one scenario and prints statistics (development aid).
-func DebugScenario(name string, p, d int, self string) {
+func DebugScenario(name string, p, d int, self string, por bool) {
 	c := &Ctx{ID: "debug", Tier: "quick", Workers: 16, self: self, knownHit: map[string]int{}, nontrivialKeys: map[string]bool{}}
 	c.Deadline = time.Now().Add(10 * time.Minute)
 	t0 := time.Now()
-	part := c.DFS(name, explore.Bounds{Preempt: p, Dev: d})
-	fmt.Printf("%s P<=%d D<=%d: exec=%d distinct=%d maxchoices=%d viol=%d capped=%v %.1fs\n", name, p, d, part.Executions, part.Distinct, part.MaxChoices, part.Violations, part.Capped, time.Since(t0).Seconds())
+	part := c.DFS(name, explore.Bounds{Preempt: p, Dev: d, POR: por})
+	fmt.Printf("%s P<=%d D<=%d por=%v: exec=%d pruned=%d distinct=%d maxchoices=%d viol=%d capped=%v %.1fs\n", name, p, d, por, part.Executions, part.Pruned, part.Distinct, part.MaxChoices, part.Violations, part.Capped, time.Since(t0).Seconds())
+	keys := []string{}
+	for k := range c.nontrivialKeys {
+		keys = append(keys, k)
+	}
+	sort.Strings(keys)
+	if os.Getenv("VERIF_SHOW_OUTCOMES") != "" {
+		for _, k := range keys {
+			fmt.Println("  outcome:", k)
+		}
+	}
 	for _, v := range c.newViol {
 		fmt.Printf("  VIOL %s: %s\n", v.Key, v.Msg)
 	}
@@ -762,4 +840,12 @@ func globMatch(pat, s string) bool {
 		s = s[k+len(parts[i]):]
 	}
 	return strings.HasSuffix(s, parts[len(parts)-1])
+}
+
+func sleepIDs(sl []vsched.Sleeper) []int {
+	var out []int
+	for _, x := range sl {
+		out = append(out, x.Thread)
+	}
+	return out
 }
